@@ -62,7 +62,7 @@ CHECKS = {
             "Small-scope hypothesis; tolerance alphabets contain both sides of and exactly each lattice distance.",
             "bounded exhaustive enumeration of configuration chains with an edge (two-execution) relation"),
     "C15": (MC, "DESIGN.md §5 C15",
-            "Explicit-state exploration of call histories: 171 call descriptors (all public functions, several "
+            "Explicit-state exploration of call histories: 186 call descriptors (all public functions, several "
             "argument shapes) with arguments taken from one shared pool; all histories of depth 1, all ordered "
             "pairs, depth 3 over the aliasing-prone subset; invariant: heap digest (pool + module globals) unchanged "
             "and each result bit-identical to the result from the initial heap; two fresh interpreters run the "
@@ -75,8 +75,10 @@ CHECKS = {
             "non-trivial pairs) x every subset of size <=2 (thorough <=3) of the keyword parameters of the "
             "underlying functions plus an unrelated keyword is run through evaluate() and compared - key set, "
             "order, scalar type, bit-identical values - with a bundle table that calls the public metric and "
-            "pre-processing functions directly with the documented forced parameters. Exhaustive over the "
-            "stated panel x keyword-subset space.",
+            "pre-processing functions directly with the documented forced parameters. A second space evaluates "
+            "the same oracle from non-initial states: every bundle after one other task's evaluate() ran first "
+            "(all 13x12 ordered task pairs, module state restored before each history). Exhaustive over the "
+            "stated panel x keyword-subset (x predecessor) space.",
             "Panel inputs are hand-chosen (each forced parameter changes the score on at least one of them); "
             "forwarding decided by inspect.signature; separation.evaluate (lists per source) is out of scope.",
             "bounded exhaustive enumeration of configurations (keyword subsets) against a bundle reference model"),
@@ -93,9 +95,11 @@ CHECKS = {
     "C08": (MC, "DESIGN.md §5 C08",
             "Edge relations from every pair state of the adapters that define them: shift (a common, exactly "
             "representable offset on both sides), permute (reorderings of unordered collections) and relabel "
-            "(label bijections per annotation); both end points are executed and all listed scores compared to "
-            "1e-12. Exhaustive within the stated bounds.",
-            "Shift edges only on dyadic lattices; beats kept >= the trim time; small-scope hypothesis.",
+            "(label bijections per annotation); both end points are executed, at the documented defaults and at "
+            "every single non-default parameter value, and all listed scores compared to 1e-12. Exhaustive "
+            "within the stated bounds.",
+            "Shift edges only on dyadic lattices; for beat.evaluate only where every beat stays at or after the "
+            "configured trim time before and after the shift; small-scope hypothesis.",
             "bounded exhaustive enumeration of states with edge (two-execution) relations"),
     "C09": (MC, "DESIGN.md §5 C09",
             "Key: all key pairs x 12 transpositions x 2 spellings (complete). Chord: label panel (every quality "
@@ -110,7 +114,9 @@ CHECKS = {
             "weighted_accuracy on all comparison vectors x weight vectors x scalings against an exact closed form; "
             "split edges (every cut of one interval at every interior half-cell point, same label or an equivalent "
             "chord respelling) from every pair of labelled segmentations of the stated bounds for chord.evaluate, "
-            "the frame-based segment labelling scores and hierarchy.lmeasure. Exhaustive within bounds.",
+            "the frame-based segment labelling scores and hierarchy.lmeasure (also with boundaries off the frame "
+            "grid, quarter-cell cuts and cuts 2^-11 s next to the other side's boundaries; weight scalings down to "
+            "2^-40). Exhaustive within bounds.",
             "Dyadic cut points and frame sizes; respelling alphabet verified encoding-equivalent at start-up.",
             "bounded exhaustive enumeration of states with refinement edges (two-execution relation) + closed form"),
     "C20": (FE, "DESIGN.md §5 C20",
